@@ -36,6 +36,15 @@
     iterations, hence every aggregate delay and the clock stay within `span`; the clock values
     handed to the two frameworks lie in a window of that width, so the potential argument of
     C01 excludes their only fault; C04 keeps every returned machine id inside the slot vectors.
+  * `C19_monitor_accepts_model` (+ `C19_bounds_model`, `C19_det_model`, `C19_proj_model`,
+    `C19_monitor_panics_exact`, `C19_monitor_silent`, `C19_monitor_accepts_model_total`): **the
+    monitor accepts the model's own observations** — on every list of runs whose observations are
+    the model's, where runs with the same base (seed included) share the oracle, `C19.monitor`
+    reports exactly its "panic" entries (no "bounds", "det" or "proj" failure); an observation
+    is a panic exactly when the model run ends in a fault (or, without an iteration cap, in the
+    model's own loop budget); under the guard of `C19_total` the monitor returns the empty list.
+    `C19_monitor_det_needs_shared_oracle` and `C19_monitor_sim_flag_needed` show the two
+    hypotheses on the run list are needed.
 -/
 import MbVerif.Proofs.SimRecord
 import MbVerif.Proofs.SimCap
